@@ -223,7 +223,7 @@ func (p *Promise) Reject(err value.Value, stackTrace *value.StackTrace) {
 func (p *Promise) enqueueContinuations(queue chan *Promise) {
 	for _, cont := range p.continuations {
 		vhook("enqueue.try", p, cont)
-		queue <- cont
+		sendTask(queue, cont)
 		vhook("enqueue.ok", p, cont)
 	}
 	p.continuations = nil
